@@ -6,6 +6,7 @@ import (
 	"sort"
 	"strings"
 	"sync"
+	"time"
 
 	exserver "github.com/cybergarage/go-redis/examples/go-redisd/server"
 	"github.com/cybergarage/go-redis/redis"
@@ -41,6 +42,7 @@ type cluster struct {
 	lifeAlive bool
 	seq       int // global event sequence (history timestamps)
 	execHeld  bool
+	t0        time.Time
 	// harnessTask names the tasks that belong to the harness (TLS client goroutines), not to the server.
 	harnessTask map[string]bool
 	// OnRecord observes the example store's record accesses (task name, point, key).
@@ -56,7 +58,7 @@ func addrOf(port int) string { return fmt.Sprintf(":%d", port) }
 // newCluster wires the repo's listener and yield seams to this run's simulator.
 func newCluster(tape *sim.Tape, o *Outcome) *cluster {
 	s := sim.New(tape)
-	cl := &cluster{S: s, N: sim.NewNet(s), O: o, T: tape, YieldOn: map[string]bool{}, harnessTask: map[string]bool{}}
+	cl := &cluster{S: s, N: sim.NewNet(s), O: o, T: tape, YieldOn: map[string]bool{}, harnessTask: map[string]bool{}, t0: time.Now()}
 	redis.VerifListen = cl.N.Listen
 	redis.VerifYield = func(point string, obj any) {
 		// the command mutex spans handler park points: the scheduler models it, so that no
@@ -559,6 +561,7 @@ func (cl *cluster) finish() {
 	cl.O.Log = cl.S.CanonLog()
 	cl.O.LogHash = cl.S.LogHash()
 	cl.O.Steps = cl.S.Steps
+	cl.O.SimTime += time.Since(cl.t0)
 	for k, v := range cl.S.Counter {
 		cl.O.stat(k, v)
 	}
